@@ -1,9 +1,19 @@
 package main
 
 // Generator of small .proto workspaces for C12: nested types, maps, oneofs, proto3 optional,
-// proto2 groups / extension ranges / extensions, custom options (scalar and message valued,
-// with google.protobuf.Any payloads), public imports, files without types, services with
-// shared request/response types, a comment on every element, target and non-target modules.
+// proto2 groups / extension ranges / extensions, custom options, public imports, files without
+// types, services with shared request/response types, a comment on every element, target and
+// non-target modules.
+//
+// Custom options are generated on EVERY kind of element (file, message, field, oneof, enum,
+// enum value, service, method, extension range, extension) and their VALUES carry types:
+// string / enum / message valued and repeated message valued options; message values with nested
+// messages, enums, lists and maps of messages, maps of enums; google.protobuf.Any payloads at any
+// depth (singular, in lists, in map values, inside nested messages, inside extensions of the
+// value) written in the expanded `[type.googleapis.com/pkg.Msg]: {}` / `[type.googleprod.com/…]`
+// syntax and as plain `type_url` strings with other hosts, several slashes, no slash at all, or
+// naming nothing in the image; and (in one workspace out of three) extensions of an extendable
+// option message used inside option values.
 
 import (
 	"fmt"
@@ -29,6 +39,7 @@ type gFile struct {
 	imports []int
 	public  map[int]bool
 	useOpts bool
+	useX    bool // imports o/x.proto + o/xe.proto (extendable option message and its extensions)
 	body    strings.Builder
 	nTypes  int
 }
@@ -37,6 +48,8 @@ type workspace struct {
 	files     []*gFile
 	nonTarget int // files[:nonTarget] live in the non-targeted module
 	optsFile  int // index or -1
+	xFiles    int // number of further fixed files after optsFile (0, or 2: o/x.proto, o/xe.proto)
+	optStats  map[string]int
 	types     []gType
 	names     []string // candidate filter names (elements + packages)
 	sources   [2]map[string]string
@@ -77,10 +90,33 @@ message OptV {
   repeated OptV kids = 3;
   // c:m
   map<string, google.protobuf.Any> m = 4;
+  // c:e
+  optional OptE e = 5;
+  // c:inner
+  optional Inner inner = 6;
+  // c:as
+  repeated google.protobuf.Any as = 7;
+  // c:mv
+  map<string, OptV> mv = 8;
+  // c:me
+  map<int32, OptE> me = 9;
+  // c:Inner
+  message Inner {
+    // c:t
+    optional string t = 1;
+    // c:ia
+    optional google.protobuf.Any ia = 2;
+    // c:ie
+    optional InnerE ie = 3;
+  }
+  // c:InnerE
+  enum InnerE { IE0 = 0; IE1 = 1; }
 }
 // c:OptE
 enum OptE { OE0 = 0; OE1 = 1; }
-extend google.protobuf.FileOptions { optional string fopt = 50001; optional OptV fmsg = 50002; }
+extend google.protobuf.FileOptions {
+  optional string fopt = 50001; optional OptV fmsg = 50002; optional OptE fenum = 50003; repeated OptV frep = 50004;
+}
 extend google.protobuf.MessageOptions {
   // c:mopt
   optional string mopt = 50001;
@@ -88,19 +124,86 @@ extend google.protobuf.MessageOptions {
   optional OptV mmsg = 50002;
   // c:menum
   optional OptE menum = 50003;
+  // c:mrep
+  repeated OptV mrep = 50004;
 }
-extend google.protobuf.FieldOptions { optional string dopt = 50001; optional OptV dmsg = 50002; }
-extend google.protobuf.OneofOptions { optional string oopt = 50001; }
-extend google.protobuf.EnumOptions { optional string eopt = 50001; optional OptV emsg = 50002; }
-extend google.protobuf.EnumValueOptions { optional string vopt = 50001; }
+extend google.protobuf.FieldOptions {
+  optional string dopt = 50001; optional OptV dmsg = 50002; optional OptE denum = 50003; repeated OptV drep = 50004;
+}
+extend google.protobuf.OneofOptions { optional string oopt = 50001; optional OptV omsg = 50002; }
+extend google.protobuf.EnumOptions { optional string eopt = 50001; optional OptV emsg = 50002; optional OptE eenum = 50003; }
+extend google.protobuf.EnumValueOptions { optional string vopt = 50001; optional OptV vmsg = 50002; }
 extend google.protobuf.ServiceOptions { optional string sopt = 50001; optional OptV smsg = 50002; }
-extend google.protobuf.MethodOptions { optional string topt = 50001; optional OptV tmsg = 50002; }
-extend google.protobuf.ExtensionRangeOptions { optional string ropt = 50001; }
+extend google.protobuf.MethodOptions { optional string topt = 50001; optional OptV tmsg = 50002; repeated OptV trep = 50004; }
+extend google.protobuf.ExtensionRangeOptions { optional string ropt = 50001; optional OptV rmsg = 50002; }
 `
 
-var optsNames = []string{"o", "o.OptV", "o.OptE", "o.fopt", "o.fmsg", "o.mopt", "o.mmsg", "o.menum", "o.dopt", "o.dmsg",
-	"o.oopt", "o.eopt", "o.emsg", "o.vopt", "o.sopt", "o.smsg", "o.topt", "o.tmsg", "o.ropt",
+// An extendable option message (o/x.proto) and, in a file of its own (o/xe.proto), extensions of
+// it: option values then use extensions (`{ [o.e.xs]: "v" }`) declared in a file that nothing but
+// the option VALUE refers to.
+const xSource = `syntax = "proto2";
+package o;
+import "google/protobuf/descriptor.proto";
+import "google/protobuf/any.proto";
+import "o/opts.proto";
+// c:OptX
+message OptX {
+  // c:s
+  optional string s = 1;
+  // c:a
+  optional google.protobuf.Any a = 2;
+  // c:v
+  optional OptV v = 3;
+  extensions 100 to 199;
+}
+extend google.protobuf.FileOptions { optional OptX fx = 50020; }
+extend google.protobuf.MessageOptions { optional OptX mx = 50020; }
+extend google.protobuf.FieldOptions { optional OptX dx = 50020; }
+extend google.protobuf.MethodOptions { optional OptX tx = 50020; }
+`
+
+const xeSource = `syntax = "proto2";
+package o.e;
+import "google/protobuf/any.proto";
+import "o/opts.proto";
+import "o/x.proto";
+extend o.OptX {
+  // c:xs
+  optional string xs = 100;
+  // c:xa
+  optional google.protobuf.Any xa = 101;
+  // c:xv
+  optional o.OptV xv = 102;
+  // c:xe
+  optional o.OptE xe = 103;
+}
+`
+
+var optsNames = []string{"o", "o.OptV", "o.OptE", "o.OptV.Inner", "o.OptV.InnerE",
+	"o.fopt", "o.fmsg", "o.fenum", "o.frep", "o.mopt", "o.mmsg", "o.menum", "o.mrep", "o.dopt", "o.dmsg", "o.denum", "o.drep",
+	"o.oopt", "o.omsg", "o.eopt", "o.emsg", "o.eenum", "o.vopt", "o.vmsg", "o.sopt", "o.smsg", "o.topt", "o.tmsg", "o.trep", "o.ropt", "o.rmsg",
 	"google.protobuf", "google.protobuf.MessageOptions", "google.protobuf.FieldOptions", "google.protobuf.Any", "google.protobuf.FileOptions"}
+
+var xNames = []string{"o.OptX", "o.fx", "o.mx", "o.dx", "o.tx", "o.e", "o.e.xs", "o.e.xa", "o.e.xv", "o.e.xe"}
+
+// optDef is one custom option: kind 's' string, 'e' OptE, 'v' OptV, 'r' repeated OptV, 'x' OptX.
+type optDef struct {
+	name string
+	kind byte
+}
+
+// siteOpts lists the custom options available on each kind of element.
+var siteOpts = map[string][]optDef{
+	"file":   {{"o.fopt", 's'}, {"o.fmsg", 'v'}, {"o.fenum", 'e'}, {"o.frep", 'r'}, {"o.fx", 'x'}},
+	"msg":    {{"o.mopt", 's'}, {"o.mmsg", 'v'}, {"o.menum", 'e'}, {"o.mrep", 'r'}, {"o.mx", 'x'}},
+	"field":  {{"o.dopt", 's'}, {"o.dmsg", 'v'}, {"o.denum", 'e'}, {"o.drep", 'r'}, {"o.dx", 'x'}},
+	"oneof":  {{"o.oopt", 's'}, {"o.omsg", 'v'}},
+	"enum":   {{"o.eopt", 's'}, {"o.emsg", 'v'}, {"o.eenum", 'e'}},
+	"value":  {{"o.vopt", 's'}, {"o.vmsg", 'v'}},
+	"svc":    {{"o.sopt", 's'}, {"o.smsg", 'v'}},
+	"method": {{"o.topt", 's'}, {"o.tmsg", 'v'}, {"o.trep", 'r'}, {"o.tx", 'x'}},
+	"range":  {{"o.ropt", 's'}, {"o.rmsg", 'v'}},
+}
 
 // visible returns the file indexes whose types file f can name (itself, imports, public closure).
 func (ws *workspace) visible(f int) map[int]bool {
@@ -124,7 +227,7 @@ func (ws *workspace) visible(f int) map[int]bool {
 }
 
 func generateWorkspace(r *hx.Rand) *workspace {
-	ws := &workspace{optsFile: -1}
+	ws := &workspace{optsFile: -1, optStats: map[string]int{}}
 	g := &gen{r: r, ws: ws, names: map[string]bool{}}
 	pkgs := []string{"p", "p.q", "r", "p", ""}
 	dirs := []string{"", "x/", "y/z/", ""}
@@ -133,7 +236,14 @@ func generateWorkspace(r *hx.Rand) *workspace {
 	if withOpts {
 		ws.optsFile = 0
 		ws.files = append(ws.files, &gFile{path: "o/opts.proto", pkg: "o", proto2: true, public: map[int]bool{}})
+		if r.Chance(1, 3) {
+			ws.xFiles = 2
+			ws.files = append(ws.files,
+				&gFile{path: "o/x.proto", pkg: "o", proto2: true, public: map[int]bool{}, imports: []int{0}},
+				&gFile{path: "o/xe.proto", pkg: "o.e", proto2: true, public: map[int]bool{}, imports: []int{0, 1}})
+		}
 	}
+	fixed := func(j int) bool { return ws.optsFile >= 0 && j <= ws.optsFile+ws.xFiles }
 	for i := 0; i < nContent; i++ {
 		f := &gFile{
 			path:   fmt.Sprintf("%sf%d.proto", hx.Pick(r, dirs), i),
@@ -147,7 +257,14 @@ func generateWorkspace(r *hx.Rand) *workspace {
 				if r.Chance(2, 3) {
 					f.imports = append(f.imports, j)
 					f.useOpts = true
+					if ws.xFiles > 0 && r.Chance(2, 3) {
+						f.imports = append(f.imports, j+1, j+2)
+						f.useX = true
+					}
 				}
+				continue
+			}
+			if fixed(j) {
 				continue
 			}
 			if r.Chance(1, 2) {
@@ -173,7 +290,14 @@ func generateWorkspace(r *hx.Rand) *workspace {
 	skels := make([]skel, len(ws.files))
 	for i, f := range ws.files {
 		if i == ws.optsFile {
-			ws.types = append(ws.types, gType{full: "o.OptV", file: i, proto2: true}, gType{full: "o.OptE", file: i, isEnum: true, proto2: true})
+			ws.types = append(ws.types, gType{full: "o.OptV", file: i, proto2: true}, gType{full: "o.OptE", file: i, isEnum: true, proto2: true},
+				gType{full: "o.OptV.Inner", file: i, proto2: true}, gType{full: "o.OptV.InnerE", file: i, isEnum: true, proto2: true})
+			continue
+		}
+		if fixed(i) {
+			if f.path == "o/x.proto" {
+				ws.types = append(ws.types, gType{full: "o.OptX", file: i, proto2: true})
+			}
 			continue
 		}
 		if r.Chance(1, 6) {
@@ -213,8 +337,8 @@ func generateWorkspace(r *hx.Rand) *workspace {
 	pkgSet := map[string]bool{}
 	for i, f := range ws.files {
 		pkgSet[f.pkg] = true
-		if i == ws.optsFile {
-			f.body.WriteString(optsSource)
+		if fixed(i) {
+			f.body.WriteString(map[string]string{"o/opts.proto": optsSource, "o/x.proto": xSource, "o/xe.proto": xeSource}[f.path])
 			f.nTypes = 1
 			continue
 		}
@@ -253,22 +377,183 @@ func generateWorkspace(r *hx.Rand) *workspace {
 				fmt.Fprintf(b, "import %q;\n", ws.files[j].path)
 			}
 		}
-		anyVal := func() string {
-			if len(visMsgs) > 0 && r.Chance(1, 2) {
-				return fmt.Sprintf("{ a: { [type.googleapis.com/%s]: {} } }", hx.Pick(r, visMsgs))
+		// --- option values -------------------------------------------------------------------
+		stat := func(k string) { ws.optStats[k]++ }
+		// anyLit is the literal of one google.protobuf.Any value.
+		anyLit := func() string {
+			if len(visMsgs) == 0 || r.Chance(1, 25) {
+				stat("any-url:names-nothing")
+				return `{ type_url: "example.com/p.Nope" }`
 			}
-			if len(visMsgs) > 0 && r.Chance(1, 3) {
-				return fmt.Sprintf("{ kids: [ { s: \"k\" }, { a: { [type.googleapis.com/%s]: {} } } ] }", hx.Pick(r, visMsgs))
+			if len(visEnums) > 0 && r.Chance(1, 40) {
+				stat("any-url:names-an-enum")
+				return fmt.Sprintf(`{ type_url: "type.googleapis.com/%s" }`, hx.Pick(r, visEnums))
 			}
-			return "{ s: \"v\" }"
+			m := hx.Pick(r, visMsgs)
+			switch r.Intn(9) {
+			case 0, 1:
+				stat("any-url:expanded-googleapis")
+				return fmt.Sprintf("{ [type.googleapis.com/%s]: {} }", m)
+			case 2:
+				stat("any-url:expanded-googleprod")
+				return fmt.Sprintf("{ [type.googleprod.com/%s]: {} }", m)
+			case 3:
+				stat("any-url:plain-googleapis")
+				return fmt.Sprintf(`{ type_url: "type.googleapis.com/%s" }`, m)
+			case 4:
+				stat("any-url:plain-other-host-two-slashes")
+				return fmt.Sprintf(`{ type_url: "example.com/types/%s" value: "" }`, m)
+			case 5:
+				stat("any-url:plain-no-slash")
+				return fmt.Sprintf(`{ type_url: "%s" }`, m)
+			case 6:
+				stat("any-url:plain-scheme-and-path")
+				return fmt.Sprintf(`{ type_url: "https://h.example/a/b/%s" }`, m)
+			case 7:
+				stat("any-url:plain-googleprod")
+				return fmt.Sprintf(`{ type_url: "type.googleprod.com/%s" }`, m)
+			default:
+				if r.Chance(1, 3) {
+					// an Any inside the PAYLOAD of an Any: the closure does not look into payload bytes
+					// (TODO in exploreOptionSingularValueForAny); observed and counted, not judged
+					stat("any-url:any-nested-inside-any-payload")
+					return fmt.Sprintf(`{ [type.googleapis.com/o.OptV]: { s: "payload" a: { [type.googleapis.com/%s]: {} } } }`, m)
+				}
+				stat("any-url:expanded-with-payload-fields")
+				return `{ [type.googleapis.com/o.OptV]: { s: "payload" e: OE1 } }`
+			}
 		}
-		if useOpts && r.Chance(1, 3) {
-			if r.Bool() {
-				b.WriteString("option (o.fopt) = \"f\";\n")
-			} else {
-				fmt.Fprintf(b, "option (o.fmsg) = %s;\n", anyVal())
+		// optv is a literal of o.OptV: nested messages, enums, lists and maps of messages, Anys.
+		var optv func(depth int) string
+		optv = func(depth int) string {
+			var parts []string
+			add := func(kind, lit string) { parts = append(parts, lit); stat("opt-value:" + kind) }
+			for len(parts) == 0 {
+				if r.Chance(1, 3) {
+					add("string", `s: "v"`)
+				}
+				if r.Chance(1, 3) {
+					add("any", "a: "+anyLit())
+				}
+				if depth < 1 && r.Chance(1, 4) {
+					add("list-of-messages", fmt.Sprintf("kids: [ %s, %s ]", optv(depth+1), optv(depth+1)))
+				}
+				if r.Chance(1, 5) {
+					lit := fmt.Sprintf(`m: { key: "k1" value: %s }`, anyLit())
+					if r.Bool() {
+						lit += fmt.Sprintf(` m: { key: "k2" value: %s }`, anyLit())
+					}
+					add("map-of-any", lit)
+				}
+				if r.Chance(1, 6) {
+					add("enum", "e: OE1")
+				}
+				if r.Chance(1, 5) {
+					add("nested-message-with-any-and-enum", fmt.Sprintf(`inner: { t: "t" ia: %s ie: IE1 }`, anyLit()))
+				}
+				if r.Chance(1, 6) {
+					add("list-of-any", fmt.Sprintf("as: [ %s, %s ]", anyLit(), anyLit()))
+				}
+				if depth < 1 && r.Chance(1, 5) {
+					add("map-of-messages", fmt.Sprintf(`mv: { key: "k" value: %s }`, optv(depth+1)))
+				}
+				if r.Chance(1, 8) {
+					add("map-of-enums", "me: { key: 1 value: OE1 }")
+				}
 			}
+			return "{ " + strings.Join(parts, " ") + " }"
 		}
+		// optx is a literal of the extendable o.OptX: extensions (declared in o/xe.proto) inside the value.
+		optx := func() string {
+			var parts []string
+			add := func(kind, lit string) { parts = append(parts, lit); stat("opt-value:" + kind) }
+			for len(parts) == 0 {
+				if r.Chance(1, 4) {
+					add("string", `s: "x"`)
+				}
+				if r.Chance(1, 3) {
+					add("extension-string", `[o.e.xs]: "v"`)
+				}
+				if r.Chance(1, 3) {
+					add("extension-any", "[o.e.xa]: "+anyLit())
+				}
+				if r.Chance(1, 4) {
+					add("extension-message", "[o.e.xv]: "+optv(1))
+				}
+				if r.Chance(1, 5) {
+					add("extension-enum", "[o.e.xe]: OE1")
+				}
+				if r.Chance(1, 4) {
+					add("any", "a: "+anyLit())
+				}
+				if r.Chance(1, 5) {
+					add("nested-message", "v: "+optv(1))
+				}
+			}
+			return "{ " + strings.Join(parts, " ") + " }"
+		}
+		// assigns picks 0-2 custom options for one element of the given kind ("(o.x) = value").
+		assigns := func(site string, num, den int) []string {
+			if !useOpts || !r.Chance(num, den) {
+				return nil
+			}
+			var avail []optDef
+			for _, d := range siteOpts[site] {
+				if d.kind != 'x' || f.useX {
+					avail = append(avail, d)
+				}
+			}
+			n := 1
+			if r.Chance(1, 5) {
+				n = 2
+			}
+			used := map[string]bool{}
+			var out []string
+			for ; n > 0; n-- {
+				d := hx.Pick(r, avail)
+				for tries := 0; tries < 2 && d.kind == 's'; tries++ {
+					d = hx.Pick(r, avail) // favour options whose values carry types
+				}
+				if used[d.name] {
+					continue
+				}
+				used[d.name] = true
+				kind, v := "", ""
+				switch d.kind {
+				case 's':
+					kind, v = "string", `"q"`
+				case 'e':
+					kind, v = "enum", hx.Pick(r, []string{"OE1", "OE0"})
+				case 'v':
+					kind, v = "message", optv(0)
+				case 'r':
+					kind, v = "repeated-message", optv(0)
+				case 'x':
+					kind, v = "extendable-message", optx()
+				}
+				stat("opt-site:" + site + ":" + kind)
+				out = append(out, fmt.Sprintf("(%s) = %s", d.name, v))
+				if d.kind == 'r' && r.Bool() {
+					out = append(out, fmt.Sprintf("(%s) = %s", d.name, optv(0)))
+				}
+			}
+			return out
+		}
+		stmts := func(ind, site string, num, den int) string {
+			var sb strings.Builder
+			for _, a := range assigns(site, num, den) {
+				fmt.Fprintf(&sb, "%soption %s;\n", ind, a)
+			}
+			return sb.String()
+		}
+		compact := func(site string, num, den int) string {
+			as := assigns(site, num, den)
+			if len(as) == 0 {
+				return ""
+			}
+			return " [" + strings.Join(as, ", ") + "]"
+		}
+		b.WriteString(stmts("", "file", 1, 3))
 		sk := skels[i]
 		label := func() string {
 			if f.proto2 {
@@ -285,30 +570,13 @@ func generateWorkspace(r *hx.Rand) *workspace {
 			}
 			return hx.Pick(r, scalarTypes)
 		}
-		fieldOpt := func() string {
-			if !useOpts || !r.Chance(1, 5) {
-				return ""
-			}
-			if r.Bool() {
-				return " [(o.dopt) = \"d\"]"
-			}
-			return fmt.Sprintf(" [(o.dmsg) = %s]", anyVal())
-		}
+		fieldOpt := func() string { return compact("field", 1, 5) }
 		var writeMsg func(ind, scope, name string, sub, subE []string, top bool)
 		writeMsg = func(ind, scope, name string, sub, subE []string, top bool) {
 			full := qual(scope, name)
 			fmt.Fprintf(b, "%s// c:%s\n%smessage %s {\n", ind, name, ind, name)
 			in := ind + "  "
-			if useOpts && r.Chance(1, 4) {
-				switch r.Intn(3) {
-				case 0:
-					fmt.Fprintf(b, "%soption (o.mopt) = \"m\";\n", in)
-				case 1:
-					fmt.Fprintf(b, "%soption (o.mmsg) = %s;\n", in, anyVal())
-				default:
-					fmt.Fprintf(b, "%soption (o.menum) = OE1;\n", in)
-				}
-			}
+			b.WriteString(stmts(in, "msg", 1, 4))
 			num := 1
 			nf := r.Intn(5)
 			isLeaf := typeByName[full] != nil && typeByName[full].leaf
@@ -321,9 +589,7 @@ func generateWorkspace(r *hx.Rand) *workspace {
 				case !isLeaf && r.Chance(1, 6):
 					oname := g.fresh("oo")
 					fmt.Fprintf(b, "%s// c:%s\n%soneof %s {\n", in, oname, in, oname)
-					if useOpts && r.Chance(1, 4) {
-						fmt.Fprintf(b, "%s  option (o.oopt) = \"o\";\n", in)
-					}
+					b.WriteString(stmts(in+"  ", "oneof", 1, 3))
 					for n := 1 + r.Intn(3); n > 0; n-- {
 						fn := g.fresh("f")
 						fmt.Fprintf(b, "%s  // c:%s\n%s  %s %s = %d%s;\n", in, fn, in, fieldType(), fn, num, fieldOpt())
@@ -342,11 +608,7 @@ func generateWorkspace(r *hx.Rand) *workspace {
 				num++
 			}
 			if t := typeByName[full]; t != nil && t.extd {
-				ro := ""
-				if useOpts && r.Chance(1, 3) {
-					ro = " [(o.ropt) = \"r\"]"
-				}
-				fmt.Fprintf(b, "%sextensions 100 to 199%s;\n", in, ro)
+				fmt.Fprintf(b, "%sextensions 100 to 199%s;\n", in, compact("range", 1, 2))
 			}
 			if r.Chance(1, 6) {
 				fmt.Fprintf(b, "%sreserved 900 to 910;\n", in)
@@ -356,7 +618,8 @@ func generateWorkspace(r *hx.Rand) *workspace {
 					writeMsg(in, full, s, nil, nil, false)
 				}
 				for _, e := range subE {
-					fmt.Fprintf(b, "%s// c:%s\n%senum %s { %s_0 = 0; %s_1 = 1; }\n", in, e, in, e, e, e)
+					fmt.Fprintf(b, "%s// c:%s\n%senum %s {\n%s%s  %s_0 = 0;\n%s  %s_1 = 1%s;\n%s}\n", in, e, in, e,
+						stmts(in+"  ", "enum", 1, 4), in, e, in, e, compact("value", 1, 4), in)
 				}
 			}
 			fmt.Fprintf(b, "%s}\n", ind)
@@ -370,14 +633,9 @@ func generateWorkspace(r *hx.Rand) *workspace {
 			f.nTypes++
 		}
 		for _, e := range sk.enums {
-			eo, vo := "", ""
-			if useOpts && r.Chance(1, 3) {
-				eo = " option (o.eopt) = \"e\";"
-			}
-			if useOpts && r.Chance(1, 3) {
-				vo = " [(o.vopt) = \"v\"]"
-			}
-			fmt.Fprintf(b, "// c:%s\nenum %s {%s\n  // c:%s_0\n  %s_0 = 0;\n  %s_1 = 1%s;\n}\n", e, e, eo, e, e, e, vo)
+			eo := stmts("  ", "enum", 1, 3)
+			vo0, vo := compact("value", 1, 6), compact("value", 1, 3)
+			fmt.Fprintf(b, "// c:%s\nenum %s {\n%s  // c:%s_0\n  %s_0 = 0%s;\n  %s_1 = 1%s;\n}\n", e, e, eo, e, e, vo0, e, vo)
 			ws.names = append(ws.names, qual(f.pkg, e))
 			f.nTypes++
 		}
@@ -385,15 +643,13 @@ func generateWorkspace(r *hx.Rand) *workspace {
 		if len(visMsgs) > 0 && r.Chance(1, 2) {
 			sname := g.fresh("S")
 			fmt.Fprintf(b, "// c:%s\nservice %s {\n", sname, sname)
-			if useOpts && r.Chance(1, 3) {
-				b.WriteString("  option (o.sopt) = \"s\";\n")
-			}
+			b.WriteString(stmts("  ", "svc", 1, 3))
 			pool := []string{hx.Pick(r, visMsgs), hx.Pick(r, visMsgs), hx.Pick(r, visMsgs)}
 			for n := 1 + r.Intn(3); n > 0; n-- {
 				mn := g.fresh("Rpc")
 				mo := ";"
-				if useOpts && r.Chance(1, 4) {
-					mo = fmt.Sprintf(" { option (o.tmsg) = %s; }", anyVal())
+				if so := stmts("    ", "method", 1, 3); so != "" {
+					mo = " {\n" + so + "  }"
 				}
 				fmt.Fprintf(b, "  // c:%s\n  rpc %s(.%s) returns (.%s)%s\n", mn, mn, hx.Pick(r, pool), hx.Pick(r, pool), mo)
 				ws.names = append(ws.names, qual(f.pkg, sname+"."+mn))
@@ -444,6 +700,9 @@ func generateWorkspace(r *hx.Rand) *workspace {
 	ws.names = append(ws.names, "")
 	if ws.optsFile >= 0 {
 		ws.names = append(ws.names, optsNames...)
+		if ws.xFiles > 0 {
+			ws.names = append(ws.names, xNames...)
+		}
 	}
 	sort.Strings(ws.names)
 	ws.names = uniq(ws.names)
@@ -478,6 +737,12 @@ type witness struct {
 	exclude  []string
 }
 
+const witnessOpts = `syntax = "proto2"; package o; import "google/protobuf/descriptor.proto"; import "google/protobuf/any.proto";
+message V { optional google.protobuf.Any a = 1; map<string, google.protobuf.Any> m = 2; repeated google.protobuf.Any as = 3; optional V in = 4; map<string, V> mv = 5; }
+extend google.protobuf.MessageOptions { optional V mo = 50001; }
+extend google.protobuf.FieldOptions { optional V fo = 50001; }
+`
+
 var witnesses = []witness{
 	{name: "9a-typeless-file",
 		target: map[string]string{
@@ -511,4 +776,19 @@ var witnesses = []witness{
 			"dep.proto":   "syntax = \"proto3\"; package d; import \"other.proto\";\nmessage D1 {}\nmessage D2 { o.O o = 1; }\n",
 			"other.proto": "syntax = \"proto3\"; package o;\nmessage O {}\n"},
 		exclude: []string{"p.B"}},
+	// Any payloads inside option values whose type URL does not use the default prefix, in a
+	// singular field, a map value, a list, a nested message and a map of messages.
+	{name: "any-payload-url-forms",
+		target: map[string]string{
+			"o.proto": witnessOpts,
+			"a.proto": "syntax = \"proto3\"; package p; import \"o.proto\";\n// c:P1\nmessage P1 {}\n// c:P2\nmessage P2 {}\n// c:P3\nmessage P3 {}\n// c:P4\nmessage P4 {}\n// c:P5\nmessage P5 {}\n// c:P6\nmessage P6 {}\n" +
+				"// c:A\nmessage A {\n  option (o.mo) = { a: { [type.googleprod.com/p.P1]: {} } m: { key: \"k\" value: { type_url: \"example.com/types/p.P2\" } } as: [ { type_url: \"p.P3\" } ] in: { a: { type_url: \"https://h.example/x/y/p.P4\" } } mv: { key: \"k\" value: { m: { key: \"j\" value: { type_url: \"/p.P5\" } } } } };\n  int32 x = 1 [(o.fo) = { as: [ { [type.googleapis.com/p.P6]: {} } ] }];\n}\n// c:B\nmessage B {}\n"},
+		include: []string{"p.A"}},
+	{name: "any-payload-url-forms-exclude-only",
+		target: map[string]string{
+			"o.proto": witnessOpts,
+			"a.proto": "syntax = \"proto3\"; package p; import \"o.proto\"; import \"b.proto\";\n" +
+				"// c:A\nmessage A {\n  option (o.mo) = { m: { key: \"k\" value: { type_url: \"example.com/types/q.Q1\" } } in: { a: { [type.googleprod.com/q.Q2]: {} } } };\n}\n// c:B\nmessage B {}\n",
+			"b.proto": "syntax = \"proto3\"; package q;\n// c:Q1\nmessage Q1 {}\n// c:Q2\nmessage Q2 {}\n// c:Q3\nmessage Q3 {}\n"},
+		exclude: []string{"p.B", "q.Q3"}},
 }
